@@ -81,10 +81,19 @@ def run_case(i, tier, seed):
                     p["sensor_acquisition_date_microseconds"] = ms * 1000 + inst["us"]
             im = im2
         files[n] = synth.image_bytes(im)
+    extra_decimals = False
     led = gen.minimal_leader(n_att=3, att_len=16 + 120 * 3, inst=inst)
     led["ds"]["scene_center_time"] = tx["scene_center_time_us"] if inst["us"] else rng.choice([tx["scene_center_time_ms"], tx["scene_center_time_us"]])
     led["pp"]["datetime_of_first_point.date"] = tx["pp_date"]
     led["pp"]["datetime_of_first_point.seconds_of_day"] = tx["pp_seconds"]
+    if i % 11 == 3 and inst["ms"] // 1000 < 86399:
+        # decimal seconds written with more than six decimals (never an exact half microsecond): the value denotes the
+        # nearest microsecond; a fraction of .9999995 and above carries into the next second
+        secs = inst["ms"] // 1000
+        frac = rng.choice(["9999996", "99999951", "999999949", f"{inst['ms'] % 1000:03d}{inst['us']:03d}{rng.choice('12346789')}",
+                           f"{inst['ms'] % 1000:03d}{inst['us']:03d}4{rng.randrange(1, 100):02d}"])
+        led["pp"]["datetime_of_first_point.seconds_of_day"] = f"{secs}.{frac}"
+        extra_decimals = True
     for p in led["att"]["points"]:
         p["time.day_of_year"] = str(inst["doy"])
         p["time.millisecond_of_day"] = str(inst["ms"])
@@ -117,7 +126,7 @@ def run_case(i, tier, seed):
                 for ln in (0, 2):
                     reads[f"image {harness.group_name(nme)} line {ln} ms stamp"] = g["sensor_acquisition_date"].values[ln]
             reads["attitude point"] = tree["metadata/attitude/attitude"]["time"].values[0]
-            if inst["us"] == 0:
+            if inst["us"] == 0 and not extra_decimals:
                 reads["platform-position first point"] = np.datetime64(tree["metadata/platform_position"].attrs["datetime_of_first_point"], "ns")
                 reads["scene-centre time"] = np.datetime64(tree["metadata/dataset_summary"].attrs["scene_center_time"], "ns")
             vals = {k: np.datetime64(v, "ns") for k, v in reads.items()}
@@ -138,11 +147,11 @@ def run_case(i, tier, seed):
     if att and not other and all("delta 86400000000000 ns" in p or "exactly one day after" in p for p in att):
         violations.append({"key": KEY, "what": att[0], "detail": {"instant": inst, "all": att[:4]}})
     else:
-        for p in problems[:6]:
+        for p in (other + att)[:6]:
             violations.append({"what": p, "detail": {"instant": inst, "expected": want_dt.isoformat(), "level": level}})
     leap = calendar.isleap(inst["year"])
     return {"sig": f"leap:{int(leap)}|{cls}|{level}|us:{int(bool(inst['us']))}", "evals": n, "violations": violations,
-            "obs": {"products": 1, "time_leaves_compared": n, "relational_checks": relational},
+            "obs": {"products": 1, "time_leaves_compared": n, "relational_checks": relational, "seconds_with_extra_decimals": int(extra_decimals)},
             "sample": {"instant": inst, "as_datetime": want_dt.isoformat(), "level": level}, "nontrivial": n > 0}
 
 
